@@ -796,3 +796,80 @@ def bounded_exports(tier, seed):
 BOUNDED["C20.exports"] = bounded_exports
 PROPERTY_INFO["C20"]["bounded"] = ["C14.access_order", "C20.exports"]
 PROPERTY_INFO["C20"]["not_decided"] = ["get_measurement / to_dataframe / copy / pickle: pandas, np.interp and the copy protocol are outside the interpreted subset; bounded run-time checks (the recursion of __getattr__ on a bare instance is proved separately)"]
+
+
+# ---- SpectrumResult.__init__: the normalisation is value preserving (C05/C20: closes the 'trusted' entry) -------------
+# compute() hands over plan fields + statistics; __init__ copies the dict, converts dtypes, rebuilds D as one object
+# entry per bin.  Post: every array entry holds the same values (elementwise), D[i] holds the same starts, nf = len(f),
+# the caller's dict is not written.
+
+_RES_KEYS_REAL = ("f", "r", "b", "S12", "S2", "XX", "YY", "M2", "O", "compute_t")
+_RES_KEYS_INT = ("L", "K", "navg")
+
+
+def _result_init_setup(eng, st, fid, genv):
+    from pyvc import values as V
+    from pyvc.heap import DictV, ObjV
+    from pyvc.loops import fresh_list
+
+    nf = eng.fresh("nf", "int")
+    st.assume(V.cmp(">=", nf, 1))
+    d = {}
+    for k in _RES_KEYS_REAL:
+        d[k] = eng.alloc(st, eng.fresh_array("in_" + k, (nf,), "real"))
+    for k in _RES_KEYS_INT:
+        d[k] = eng.alloc(st, eng.fresh_array("in_" + k, (nf,), "int"))
+    d["XY"] = eng.alloc(st, eng.fresh_array("in_XY", (nf,), "cx"))
+    dl = fresh_list(eng, "in_D", "list[list[int]]")
+    st.assume(V.cmp("==", dl.n, nf))
+    d["D"] = eng.alloc(st, dl)
+    d["nf"] = nf
+    rd = eng.alloc(st, DictV(d))
+    eng.setvar(st, fid, "results_dict", rd)
+    eng.setvar(st, fid, "config_dict", eng.alloc(st, DictV({})))
+    eng.setvar(st, fid, "iscsd", True)
+    eng.setvar(st, fid, "fs", eng.fresh("fs", "real"))
+    eng.setvar(st, fid, "self", eng.alloc(st, ObjV("SpectrumResult", {})))
+    genv.update(nf=nf, IN=st.heap[rd.loc], IN_D=dl)
+    st.tags["result_self"] = st.frames[fid]["vars"]["self"].loc
+    st.tags["in_dict"] = rd.loc
+
+
+def _result_init_post(eng, st, fid, res, entry):
+    o = st.heap[st.tags["result_self"]]
+    eng.set_ghost("OUT", st.heap[o.fields["_data"].loc], st)
+    eng.set_ghost("SELF_NF", o.fields.get("nf"), st)
+    eng.set_ghost("INPUT_DICT_UNCHANGED", st.heap[st.tags["in_dict"]] is entry.heap[st.tags["in_dict"]], st)
+
+
+_same = " and ".join(f"OUT['{k}'][i] == IN['{k}'][i]" for k in _RES_KEYS_REAL + _RES_KEYS_INT + ("XY",))
+UNITS.append(
+    Unit(
+        id="analysis.SpectrumResult.__init__",
+        module=M,
+        func="SpectrumResult.__init__",
+        props=["C05", "C20"],
+        setup=_result_init_setup,
+        loops={
+            # 0: list-valued entries (unrolled over the dict); 1..3: dtype loops (unrolled); 4, 5: D normalisation
+            "4": dict(
+                label="rows",
+                types={"D_list": "list[list[int]]"},
+                inv={"copied": "len(D_list) == _i and forall(0, _i, lambda q: len(D_list[q]) == len(IN_D[q]) and forall(0, len(IN_D[q]), lambda m: D_list[q][m] == IN_D[q][m]))"},
+            ),
+            "5": dict(
+                label="entries",
+                inv={"stored": "forall(0, _i, lambda q: len(D_arr[q]) == len(IN_D[q]) and forall(0, len(IN_D[q]), lambda m: D_arr[q][m] == IN_D[q][m]))"},
+            ),
+        },
+        ensures={
+            "C20.values_preserved": f"forall(0, nf, lambda i: {_same})",
+            "C20.lengths_preserved": " and ".join(f"len(OUT['{k}']) == nf" for k in _RES_KEYS_REAL + _RES_KEYS_INT + ("XY", "D")),
+            "C20.starts_preserved": "forall(0, nf, lambda i: len(OUT['D'][i]) == len(IN_D[i]) and forall(0, len(IN_D[i]), lambda m: OUT['D'][i][m] == IN_D[i][m]))",
+            "C20.number_of_bins": "SELF_NF == nf",
+            "C20.input_dict_not_written": "INPUT_DICT_UNCHANGED",
+        },
+        post_hook=_result_init_post,
+        opts={"callee": False},
+    )
+)
